@@ -168,7 +168,7 @@ func GenIntVal() *rapid.Generator[*Val] {
 	})
 }
 
-var floatPool = []string{"5e-324", "2.2250738585072014e-308", "1E5", "1e-7", "0.1", "0.30000000000000004", "123456789012345678.5", "0.123456789", "52.52000659", "1.7976931348623157e308", "1234.56789", "-0.000001234567891", "1.5", "0.5", "-2.25", "10.1", "1.2", "0.001", "3.14159", "-0.75", "5.0", "100.125", "1e3", "2.5e-3", "12345678.875", "100000000000000020.0", "9007199254740993.0", "1e17", "18446744073709551616.0"}
+var floatPool = []string{"5e-324", "2.2250738585072014e-308", "1E5", "1e-7", "0.1", "0.30000000000000004", "123456789012345678.5", "0.123456789", "52.52000659", "1.7976931348623157e308", "1234.56789", "-0.000001234567891", "1.5", "0.5", "-2.25", "10.1", "1.2", "0.001", "3.14159", "-0.75", "5.0", "100.125", "1e3", "2.5e-3", "12345678.875", "100000000000000020.0", "9007199254740993.0", "1e17", "18446744073709551616.0", "0.0", "-0.0", "0.00", "0e0"}
 
 // GenFloatVal draws a decimal written so that Go prints back the same number.
 func GenFloatVal() *rapid.Generator[*Val] {
